@@ -12,7 +12,7 @@ import copy
 from dsim import core, refmodels
 from dsim.core import Result, Trace, canon, plain, InjectedFault, StepBudgetExceeded
 from dsim.isolate import call_in_fork, ChildFailure
-from dsim.seams import SimClock, ClockSeam, SimSolver, FaultyValueOf, LogSeam, warm_up_solver
+from dsim.seams import SimClock, ClockSeam, SimSolver, FaultyValueOf, LogSeam, BinnerOpBudget, warm_up_solver
 
 ID = "C15"
 LEVEL = "exploration"
@@ -20,9 +20,9 @@ RUN_WALL_WATCHDOG_S = 600.0
 CALL_WALL_WATCHDOG_S = 240.0
 
 TIERS = {
-    "quick":    {"runs": 3000, "chunk": 4, "wall_cap_s": 80, "max_ops": 24, "ilp_share": 0.06,
+    "quick":    {"runs": 3000, "chunk": 4, "wall_cap_s": 80, "max_ops": 24, "ilp_share": 0.06, "b_max": 150000,
                  "det_sample_min": 8, "det_sample_frac": 0.01, "max_reports": 3, "shrink_candidates": 120},
-    "thorough": {"runs": 30000, "chunk": 8, "wall_cap_s": 1700, "max_ops": 40, "ilp_share": 0.10,
+    "thorough": {"runs": 30000, "chunk": 8, "wall_cap_s": 1700, "max_ops": 40, "ilp_share": 0.10, "b_max": 400000,
                  "det_sample_min": 24, "det_sample_frac": 0.003, "max_reports": 4, "shrink_candidates": 300,
                  "fresh_interpreter_check": True, "fresh_sample": 24},
 }
@@ -65,6 +65,7 @@ MEASURES = {"pair": "distinct_ordered_pairs_previous_to_current_operation_kind",
 _clock_seam = ClockSeam()
 _solver = SimSolver()
 _log = LogSeam()
+_opbudget = BinnerOpBudget()
 
 PART_ALGOS = ["greedy", "roundrobin", "multifit", "kk", "cg", "dp", "ilp", "ckk", "snp", "rnp", "cbldm", "balanced"]
 PACK_ALGOS = ["ff", "ffd", "bf", "bfd", "bc"]
@@ -306,7 +307,7 @@ def _gen_retry(r, pool, failed):
             cands = [b for b in cands if b != op["param"]]
             op["param"] = r.choice(cands)
         elif op.get("algo") not in ("cbldm",):
-            op["param"] = max(1, op["param"] + r.choice([-1, 1, 1]))
+            op["param"] = min(5, max(1, op["param"] + r.choice([-1, 1, 1])))
     return op
 
 
@@ -364,7 +365,7 @@ def gen_plan(seed, tier):
         else:
             ops.append(_direct(r, _gen_call(r, pool, cfg, p_fault, focus), p_direct))
     log = r.choice([None, None, None, None, None, "INFO", "DEBUG"])       # deployment configuration, the same for history and references
-    return {"prop": "C15", "pool": pool, "ops": ops, "log": log}
+    return {"prop": "C15", "pool": pool, "ops": ops, "log": log, "b_max": cfg["b_max"]}
 
 
 # ---------------------------------------------------------------- code that runs inside history / reference children
@@ -380,6 +381,7 @@ class _Env:
         _clock_seam.install()
         _solver.install()
         _log.configure(plan.get("log"))
+        _opbudget.install()
         self.clock = SimClock({"kind": "uniform", "t0": 0.0, "tick": 1.0}, max_reads=400000)
         _clock_seam.use(self.clock)
         self.pool = {}
@@ -525,6 +527,7 @@ class _Env:
             valueof = fv
         reads0 = self.clock.reads
         _solver.use({"mode": "real"})
+        _opbudget.start(self.plan.get("b_max", 250000))
         try:
             if op["fn"] == "generator":
                 outcome = self._generator(op, items, valueof)
@@ -587,6 +590,7 @@ class _Env:
         rec["valueof_calls"] = fv.calls if fv is not None else None
         rec["valueof_fired"] = fv.fired if fv is not None else 0
         rec["clock_reads"] = self.clock.reads - reads0
+        rec["binner_ops"] = _opbudget.ops
         rec["solver_fired"] = dict(_solver.fired)
         _solver.fired = {}
         return rec
@@ -839,9 +843,17 @@ def execute(plan, seed=0):
         raise
 
     # 3. fresh-state reference for each distinct underlying call (one fork per call)
+    class _OverBudget(Exception):
+        pass
+
     def reference(i):
         # the same operation alone in a fresh interpreter (caller edits that precede it are replayed first)
-        return call_in_fork(_child_run, (plan, [i], kmap, False), timeout=CALL_WALL_WATCHDOG_S)[-1]
+        try:
+            return call_in_fork(_child_run, (plan, [i], kmap, False), timeout=CALL_WALL_WATCHDOG_S)[-1]
+        except ChildFailure as e:
+            if "StepBudgetExceeded" in str(e):
+                raise _OverBudget()
+            raise
 
     prev_kind = None
     used = set()
@@ -912,13 +924,21 @@ def execute(plan, seed=0):
             break
         # oracle 2: same as in a fresh interpreter
         rkey = (j, epoch[i])
-        if rkey not in refs:
-            refs[rkey] = reference(i)
+        try:
+            if rkey not in refs:
+                refs[rkey] = reference(i)
+        except _OverBudget:
+            res.discarded = "over_step_budget"
+            tr.add("discard", why="step budget in reference run", op=i)
+            return res.finish(tr)
         ref = refs[rkey]
         mine, fresh = _comparable(op, rec["outcome"]), _comparable(op, ref["outcome"])
         verdict = "same"
         if mine != fresh:
-            ref2 = reference(i)
+            try:
+                ref2 = reference(i)
+            except _OverBudget:
+                ref2 = {"outcome": {"exception": "StepBudgetExceeded-in-second-reference"}}
             if _comparable(op, ref2["outcome"]) != fresh:
                 res.note("unstable_reference")
                 verdict = "reference-unstable"
@@ -944,6 +964,8 @@ def execute(plan, seed=0):
         if prev_kind not in (None, "edit", "scribble") and prev_form == "dict" and _form(plan, op["pool"]) == "dict" and prev_pool != op["pool"] and _names(plan, prev_pool) == _names(plan, op["pool"]):
             res.probe("two_dicts_with_identical_keys_back_to_back")
         tr.add("op", i=i, op=ops[i], outcome=rec["outcome"], verdict=verdict, valueof_calls=rec["valueof_calls"], clock_reads=rec["clock_reads"])
+        bo = rec.get("binner_ops", 0)
+        res.probe("call_binner_ops_le_1e3" if bo <= 1000 else "call_binner_ops_le_1e4" if bo <= 10000 else "call_binner_ops_le_1e5" if bo <= 100000 else "call_binner_ops_gt_1e5")
         res.sim_seconds += rec["clock_reads"]
         prev_kind = kind
         prev_failed = "exception" in rec["outcome"]
